@@ -151,7 +151,9 @@ func LibKey(in Input) vaxis.Key {
 	k := vaxis.Key{Modifiers: libMods(in.Mods) | vaxis.ModifierMask(in.Locks&(64|128)), EventType: libEt(in.Et)}
 	if in.Name != "" {
 		k.Keycode = Named[in.Name]
-		if in.Mods&^1 == 0 {
+		if in.Mods&^1 == 0 && !in.NoText {
+			// NoText: the event Vaxis's own decoder delivers on a host without the kitty protocol (Vaxis puts the host
+			// into application keypad mode, the terminal sends SS3 p-y / j-o / X, decoded to the keypad key without text)
 			k.Text = kpText[in.Name]
 		}
 		return k
@@ -476,7 +478,7 @@ func Run(ctx *Ctx, sc *Scn) (evs []trace.Ev, note string) {
 			vt.Update(k)
 			b := written()
 			n, rt, rtNoAlt, gots := 0, false, false, ""
-			allKeys, gotText, gotName, gotMods := true, "", "", 0
+			allKeys, gotText, gotName, gotMods, sameKey := true, "", "", 0, false
 			ctrlm := []int{} // ASCII keys c such that the decoded event matches Ctrl+c (for Ctrl chords whose control code several keys share)
 			if len(b) > 0 {
 				got, dead := h.decode(b)
@@ -496,8 +498,14 @@ func Run(ctx *Ctx, sc *Scn) (evs []trace.Ev, note string) {
 					if gk, ok := got[0].(vaxis.Key); ok {
 						rt = gk.Matches(k.Keycode, k.Modifiers)
 						rtNoAlt = gk.Matches(k.Keycode, k.Modifiers&^vaxis.ModAlt)
+						// the same key with some of the chord's modifiers (what is left of a chord whose modifiers the encoding cannot carry)
+						for sub := 0; sub < 8 && in.Name == ""; sub++ {
+							if sub&^in.Mods == 0 && (gk.Matches(k.Keycode, libMods(sub)) || (in.Shifted != 0 && gk.Matches(rune(in.Shifted), libMods(sub)))) {
+								sameKey = true
+							}
+						}
 						gotName, gotMods = nameOf[gk.Keycode], absMods(gk.Modifiers)
-						if in.Mods == 4 && in.Name == "" {
+						if (in.Mods == 4 || in.Mods == 5) && in.Name == "" {
 							for c := rune(32); c < 127; c++ {
 								if gk.Matches(c, vaxis.ModCtrl) {
 									ctrlm = append(ctrlm, int(c))
@@ -511,6 +519,9 @@ func Run(ctx *Ctx, sc *Scn) (evs []trace.Ev, note string) {
 			}
 			atomic.AddInt64(&ctx.NKeys, 1)
 			what := fmt.Sprintf("key:%s:mods=%d", in.Name, in.Mods)
+			if in.Name != "" && in.NoText && kpText[in.Name] != "" {
+				what += ":notext"
+			}
 			if in.Name == "" {
 				what = fmt.Sprintf("key:U+%04X:mods=%d", in.Code, in.Mods)
 				switch {
@@ -532,7 +543,7 @@ func Run(ctx *Ctx, sc *Scn) (evs []trace.Ev, note string) {
 			evs = append(evs, trace.Ev{"ev": "key", "i": i, "what": what, "modes": modes, "name": in.Name, "code": in.Code, "mods": in.Mods,
 				"lower": in.Name == "" && unicode.ToUpper(rune(in.Code)) != rune(in.Code), "shifted": in.Shifted, "etype": et, "text": runes(k.Text),
 				"decckm": sc.Decckm, "deckpam": sc.Deckpam, "bytes": ints(b), "n": n, "rt": rt, "rtnoalt": rtNoAlt, "ctrlm": ctrlm, "got": gots,
-				"allkeys": allKeys, "gottext": runes(gotText), "gotname": gotName, "gotmods": gotMods})
+				"allkeys": allKeys, "gottext": runes(gotText), "gotname": gotName, "gotmods": gotMods, "samekey": sameKey})
 		case "paste":
 			if in.Start {
 				vt.Update(vaxis.PasteStartEvent{})
@@ -792,7 +803,11 @@ func Generate(seed int64, thorough bool) []*Scn {
 					et = "paste"
 				}
 				if rng.Intn(2) == 0 {
-					sc.Inputs = append(sc.Inputs, Input{T: "key", Name: names[rng.Intn(len(names))], Mods: rng.Intn(8), Et: et})
+					in := Input{T: "key", Name: names[rng.Intn(len(names))], Mods: rng.Intn(8), Et: et}
+					if kpText[in.Name] != "" && rng.Intn(2) == 0 {
+						in.Mods, in.NoText = 0, true
+					}
+					sc.Inputs = append(sc.Inputs, in)
 				} else if rng.Intn(6) == 0 {
 					tk := textKeys(rng, false)
 					in := tk[rng.Intn(len(tk))]
